@@ -115,6 +115,10 @@ impl<H: Hasher> BatchMerkleProof<H> {
         if indexes.is_empty() {
             return Err(MerkleTreeError::TooFewLeafIndexes);
         }
+        // every index must come with exactly one leaf (surplus leaves would be ignored otherwise)
+        if indexes.len() != leaves.len() {
+            return Err(MerkleTreeError::InvalidProof);
+        }
 
         let mut buf = [H::Digest::default(); 2];
         let mut v = BTreeMap::new();
